@@ -608,10 +608,11 @@ func checkVirt(rs []*tbl.Raw, arg, res string) {
 	}
 	w := strings.Join(enc, " || ") + " ; cropMP4 ms:mdatFirst:hdr:between:pad:mvts:payload:zero:timescales = " + arg
 	p := strings.Split(res, "/")
-	if len(p) < 3 {
+	if len(p) < 4 {
 		fail("mp4ff-crop", "crash", w, "cropMP4: "+res)
 		return
 	}
+	p = append(p[:2], p[3:]...) // base / old size without mdat / [rest] / outcome ...
 	if p[2] != "ok" {
 		if p[2] != "err" {
 			fail("mp4ff-crop", "crash", w, "cropMP4: "+res)
